@@ -5,7 +5,9 @@ quick tier of the named property's check (and of every other check that
 caught it at filing time) runs against it through VERIF_REPO, the worktree is
 removed.  Evidence files of the real tree are preserved.
 
-usage: reseed.py [--all | name ...] [--tier quick]
+usage: reseed.py [--all | name ...] [--tier quick] [--update]
+--update writes the results back into seeded/<name>/meta.json
+(confirmed.checks), e.g. after a check was strengthened.
 """
 
 import json
@@ -75,6 +77,15 @@ def main():
             for prop, st, dt, what in run_one(n, tier):
                 print(f"{n:48s} {prop} {st:8s} {dt:6.1f}s  {' '.join(what)}")
                 sys.stdout.flush()
+                if "--update" in sys.argv and st in ("CAUGHT", "MISSED"):
+                    mp = HERE / "seeded" / n / "meta.json"
+                    meta = json.loads(mp.read_text())
+                    meta.setdefault("confirmed", {}).setdefault(
+                        "checks", {})[prop] = {
+                        "tier": tier, "exit": 1 if st == "CAUGHT" else 0,
+                        "seconds": round(dt, 1), "result": st, "what": what}
+                    mp.write_text(json.dumps(meta, indent=1,
+                                             ensure_ascii=False) + "\n")
     finally:
         for p, s in saved.items():
             p.write_text(s)
